@@ -19,6 +19,8 @@ if prop.startswith("V"):
     wt = f"/tmp/wt8-{prop}"; out = f"/tmp/seedout8-{prop}"
 if prop.startswith("W"):
     wt = f"/tmp/wt9-{prop}"; out = f"/tmp/seedout9-{prop}"
+if prop.startswith("Y"):
+    wt = f"/tmp/wt10-{prop}"; out = f"/tmp/seedout10-{prop}"
 env = dict(os.environ, GOFLAGS="-mod=mod", GOPROXY="off", GOSUMDB="off", GOTOOLCHAIN="local")
 def run(cmd, cwd=wt):
     p = subprocess.run(cmd, cwd=cwd, shell=True, env=env, capture_output=True, text=True, errors="replace")
@@ -41,7 +43,7 @@ rc, o = run(f"git apply {patch}")
 res["apply"] = rc == 0
 rc, o = run("go build ./...")
 res["a_build"] = rc == 0
-rc, o = run("go test -vet=off -count=1 ./...")
+rc, o = run("go test -vet=off -count=1 $(go list ./... | grep -v /out$)")
 res["b_existing_tests_pass_with_change"] = rc == 0
 if rc != 0: res["b_out"] = o[-800:]
 target = f"{wt}/{d}/zz_seed_demo_test.go"
